@@ -169,6 +169,23 @@ func vfStoreKickFlushWorker(st *PersistentHybridIndex) {
 	default:
 	}
 }
+
+// vfStoreActiveHas: does the ACTIVE memtable hold this document? (the only place a store Remove acts on)
+func vfStoreActiveHas(st *PersistentHybridIndex, id uint32) bool {
+	st.memtableQueue.mu.RLock()
+	mt := st.memtableQueue.mutable
+	st.memtableQueue.mu.RUnlock()
+	mt.mu.RLock()
+	defer mt.mu.RUnlock()
+	h, ok := mt.index.(*hybridSearchIndex)
+	if !ok {
+		return false
+	}
+	h.mu.RLock()
+	defer h.mu.RUnlock()
+	_, has := h.docInfo[id]
+	return has
+}
 func vfStoreEvict(st *PersistentHybridIndex)             { st.segmentManager.EvictAllCaches() }
 func vfStoreFrozenCount(st *PersistentHybridIndex) int   { return len(st.memtableQueue.listFrozen()) }
 func vfStoreSegmentCount(st *PersistentHybridIndex) int  { return st.segmentManager.Count() }
